@@ -80,4 +80,7 @@ claim('C20', 'model_checking', 'tlc-emit-replay', 'TLA+ spec NixFile (query sect
       'SearchEqualsBruteForce/BreadthFirst/BackRefsEqualBruteForce hold in every reachable state of the design; in every reachable state of the tree '
       'universes every query (start x filter x depth) is executed and compared with the specification (sequence for single-root searches, multiset otherwise).',
       FILE_NOTE + ' Trees up to 5-6 nodes (creations bound), depths 0..3 and unlimited, 2 names, 2 types; findRelated is not covered.', 'DESIGN.md section 5 (C20)')
+claim('C19', 'model_checking', 'tlc-emit-replay', 'TLA+ spec NixValid (rule table over breach subsets) + TLC (exhaustive subsets) + implementation test per subset',
+      'Sound/SoftNeverError/Complete are checked by TLC on the rule table for every breach subset; each subset is injected into a real conforming file and '
+      'the per-entity presence of validator errors is compared.', 'Trusted: TLC, harness/h_valid.cpp. One base-file shape with 3 length variants; <=2 (quick) / 3 breaches per file.', 'DESIGN.md section 5 (C19)')
 ENGINES[0]['serves_properties'] = sorted(CLAIMED)
